@@ -145,6 +145,9 @@ def classify_cmp(ev):
                 return ("exact-zero", kl if not _is_zeroish(left) else kr, 0)
             if kl is None or kr is None:
                 return ("unknown", None, None)
+            if kl != kr and left.dim[0] == "D" and right.dim[0] == "D":
+                # both sides have one definite length degree and the degrees differ: the decision changes with the unit of length
+                return ("inhomogeneous", kl, kr)
             return ("homogeneous" if kl == kr else "unknown", kl, None)
         if q is None:
             return ("unknown", None, c)
@@ -250,7 +253,7 @@ def scan(index: Index) -> Scan:
                         s = Site(e.func.qualname, e.func.file, getattr(e.node, "lineno", 0), _norm(e.node), e.form, q, c, verdict, e.path)
                         old = sc.sites.get(s.key)
                         # keep the most specific verdict seen over all calling contexts
-                        rank = {"in-band": 5, "out-of-band": 4, "relative": 3, "homogeneous": 3, "exact-zero": 3, "dimensionless": 2, "unknown": 1}
+                        rank = {"inhomogeneous": 6, "in-band": 5, "out-of-band": 4, "relative": 3, "homogeneous": 3, "exact-zero": 3, "dimensionless": 2, "unknown": 1}
                         if old is None or rank[verdict] > rank[old.verdict]:
                             sc.sites[s.key] = s
                     elif e.type == "construct":
